@@ -93,16 +93,16 @@ PROPS = {
     ),
     "C03": dict(
         title="Length and digest verification is sound and complete",
-        lean_modules=["Gowarc.Props.C03", "Gowarc.Props.C03enc", "Gowarc.Props.C03detect"],
+        lean_modules=["Gowarc.Props.C03", "Gowarc.Props.C03enc", "Gowarc.Props.C03detect", "Gowarc.Props.C03case"],
         audit_namespaces=["Gowarc.Props.C03"],
         n_quick=3000, n_thorough=40000,
         required_theorems=["hex_roundtrip", "validate_iff", "checkDigest_complete", "checkDigest_sound_warn", "checkDigest_sound_fail", "checkDigest_adds",
                            "C03_b32_roundtrip", "C03_b64_roundtrip", "C03_encode_decode", "C03_format_valid", "C03_wrong_digest_rejected",
-                           "C03_detect", "C03_newDigest_format", "C03_format_reparse", "newDigest_name"],
+                           "C03_detect", "C03_newDigest_format", "C03_format_reparse", "newDigest_name", "C03_case_insensitive", "recase_detect", "spelling_facts"],
         model_assumptions=["distinct inputs generated by the harness have distinct digests (cryptographic hash)", "see level_note"],
         design_ref="DESIGN.md section 5, C03",
         level_text="Theorems for an arbitrary hash function: validate accepts exactly the values that decode to the hash; the per-field check never reports a correct value, always reports a wrong one (finding under warn, error under fail) "
-                   "and repairs to the true value; base16, base32 and base64 decoding inverts encoding for all byte strings (bit-level proofs over the padded group forms), so the formatted digest is accepted and the encoding of any other hash rejected in every encoding; detectEncoding infers the right encoding for every hash value of the algorithm's size in all 4 x 3 algorithm/encoding combinations whatever the configured default (C03_detect), hence a digest field written by format is read back by newDigest as the same algorithm, encoding and value and validates (C03_newDigest_format, C03_format_reparse). Correspondence: full algorithm x encoding x case x hyphen grid, every one-character corruption, and records with generator-known truth about declared length/digests on parser and builder path",
+                   "and repairs to the true value; base16, base32 and base64 decoding inverts encoding for all byte strings (bit-level proofs over the padded group forms), so the formatted digest is accepted and the encoding of any other hash rejected in every encoding; detectEncoding infers the right encoding for every hash value of the algorithm's size in all 4 x 3 algorithm/encoding combinations whatever the configured default (C03_detect), hence a digest field written by format is read back by newDigest as the same algorithm, encoding and value and validates (C03_newDigest_format, C03_format_reparse); the other letter case of the value (upper-case base16, lower-case base32) and every accepted spelling of the algorithm name (upper case, with hyphen) are read as the SAME digest object (C03_case_insensitive). Correspondence: full algorithm x encoding x case x hyphen grid, every one-character corruption, and records with generator-known truth about declared length/digests on parser and builder path",
         level_note=COMMON_NOTE,
     ),
     "C05": dict(
